@@ -10,6 +10,7 @@ from lib import semcheck
 from lib.passes import DEBUG, RELEASE
 
 POOL = list(range(1, 241))          # generator seeds; each = one package of 12 test entry points
+MAIN_POOL = list(range(2001, 2121))  # one script per seed whose `main` returns a value (script-level return path)
 CONFIGS = [{"name": "debug", "profile": "debug"}, {"name": "release", "profile": "release"}]
 
 
@@ -19,17 +20,26 @@ def run(ctx):
     sc = ctx.tlc("MC_Bytes", "MC_Bytes", workers=1)
     if sc.violated:
         raise ToolError("Bytes.tla self-check failed")
-    pkgs = [semcheck.gen_package(s) for s in seeds]
+    pkgs = [semcheck.gen_package(s) for s in seeds] + semcheck.probe_packages()
     obs, failures, _ = semcheck.run_configs(ctx, pkgs, CONFIGS, procs=8)
     semcheck.report_failures(ctx, failures)
     validated, rej = semcheck.validate(ctx, pkgs, obs)
     semcheck.report_rejections(ctx, rej, pkgs)
+    # script-level path: `main`'s encoded return value through the script's own receipts
+    mseeds = slice_for_seed(MAIN_POOL, ctx.seed, 10) if ctx.quick else MAIN_POOL
+    mpk = [semcheck.gen_main_package(s) for s in mseeds]
+    mobs, mfail = semcheck.run_main_configs(ctx, mpk, CONFIGS, procs=8)
+    semcheck.report_failures(ctx, mfail)
+    mval, mrej = semcheck.validate(ctx, mpk, mobs)
+    semcheck.report_rejections(ctx, mrej, mpk)
+    validated += mval
+    failures = failures + mfail
     ntests = sum(len(p["tests"]) for p in pkgs)
     reverts = sum(1 for pk in obs.values() for o in pk.values() if o and o[0]["out"] == "revert")
     sample_p = pkgs[0]
     return ctx.finish("model_checking", {
         "traces_validated_against_impl": validated,
-        "programs": len(pkgs), "test_entry_points": ntests, "configurations": [c["name"] for c in CONFIGS],
+        "programs": len(pkgs), "test_entry_points": ntests, "scripts_run_through_main": len(mpk), "configurations": [c["name"] for c in CONFIGS],
         "observations": sum(len(o) for pk in obs.values() for o in pk.values()),
         "distinct_nontrivial_cases": semcheck.nontrivial_count(obs), "cases_that_revert": reverts,
         "build_or_run_failures": len(failures),
